@@ -229,6 +229,15 @@ class Interp:
             return len(v) > 0
         return bool(v)
 
+    def concretize(self, v, cap):
+        """fork over the feasible values of a symbolic int (0..cap); beyond the cap the path is cut (Unwind)"""
+        if not is_sym(v):
+            return v
+        for k in range(max(v.lo, 0), min(v.hi, cap) + 1):
+            if self.path.branch(v.t == k):
+                return k
+        raise Unwind(f"symbolic size beyond {cap}")
+
     def select(self, seq, idx):
         """seq[idx] with symbolic idx"""
         cells = seq.cells if isinstance(seq, (Bytes, SList)) else list(seq)
@@ -377,10 +386,12 @@ class Interp:
             if op == "Mult":
                 seq, k = (a, b) if isinstance(a, (Bytes, SList)) else (b, a)
                 if is_sym(k):
-                    raise HarnessGap("sequence repeated a symbolic number of times")
-                return type(seq)(seq.cells * k)
-            if op == "Add" and type(a) is type(b):
-                return type(a)(a.cells + b.cells)
+                    k = self.concretize(k, self.range_unwind)
+                return type(seq)(seq.cells * max(k, 0))
+            if op == "Add" and isinstance(a, (Bytes, SList)) and isinstance(b, (Bytes, SList)):
+                return (SList if isinstance(a, SList) or isinstance(b, SList) else Bytes)(a.cells + b.cells)
+            if op == "Add" and isinstance(a, (Bytes, SList)) and isinstance(b, (bytes, str)):
+                return type(a)(a.cells + list(b if isinstance(b, bytes) else b.encode("latin1")))
             raise HarnessGap("sequence arithmetic " + op)
         if isinstance(a, SymFrac) or isinstance(b, SymFrac) or isinstance(a, float) or isinstance(b, float):
             return self.frac(op, a, b)
@@ -524,7 +535,9 @@ class Interp:
             lo = self.ev(n.slice.lower, env) if n.slice.lower else None
             hi = self.ev(n.slice.upper, env) if n.slice.upper else None
             if is_sym(lo) or is_sym(hi):
-                raise HarnessGap("symbolic slice bound")
+                n = len(o.cells) if isinstance(o, (Bytes, SList)) else len(o)
+                lo = self.concretize(lo, n) if is_sym(lo) else lo
+                hi = self.concretize(hi, n + self.range_unwind) if is_sym(hi) else hi
             if isinstance(o, (Bytes, SList)):
                 return type(o)(o.cells[lo:hi])
             return o[lo:hi]
@@ -644,6 +657,9 @@ class Interp:
                 o.closed = True
                 return None
         if isinstance(o, SList):
+            if name == "clear":
+                o.cells.clear()
+                return None
             if name == "append":
                 o.cells.append(args[0])
                 return None
@@ -810,6 +826,31 @@ class Interp:
             if item.optional_vars is not None:
                 self.assign(item.optional_vars, v, env)
         self.block(s.body, env)
+
+    def s_Delete(self, s, env):
+        for t in s.targets:
+            if isinstance(t, ast.Subscript):
+                o = self.ev(t.value, env)
+                if not isinstance(o, SList):
+                    raise HarnessGap("del on " + type(o).__name__)
+                if isinstance(t.slice, ast.Slice):
+                    lo = self.ev(t.slice.lower, env) if t.slice.lower else None
+                    hi = self.ev(t.slice.upper, env) if t.slice.upper else None
+                    if is_sym(lo) or is_sym(hi):
+                        raise HarnessGap("del with symbolic slice")
+                    del o.cells[lo:hi]
+                else:
+                    i = self.ev(t.slice, env)
+                    if is_sym(i):
+                        raise HarnessGap("del with symbolic index")
+                    del o.cells[i]
+            elif isinstance(t, ast.Name):
+                for e in env:
+                    if t.id in e:
+                        del e[t.id]
+                        break
+            else:
+                raise HarnessGap("del target")
 
     def s_Global(self, s, env):
         pass
